@@ -450,25 +450,29 @@ REFINED = [
     "convert.rs UBig::to_le_bytes / from_le_bytes (+BE), inline and heap paths = positional bytes, mutually inverse, all W = 8k (ubig_bytes_model)",
     "convert.rs IBig::to_le_bytes / from_le_bytes (+BE): to_signed_le_bytes (sub_one_in_place, FLIP, resize of fix dcc404d), from_signed_le_bytes "
     "(one-padding, per-word complement, add_one_in_place) = two's complement spec, mutually inverse for every integer incl. -(2^(8k)) (ibig_bytes_model)",
+    "fixed-size buffers as bounded arrays (Model/Text/Capacity.lean: PreparedWord/PreparedDword digit arrays, [Word; 16] chunk buffer, "
+    "low_groups, write_chunk groups + assert, power-of-two digit arrays, DigitWriter, parse_word word arithmetic, Buffer::push capacity in "
+    "parse_chunk / power_two::parse_large, length assertions of the D&C parser): never overrun, results equal the unbounded model, all inputs "
+    "(tower_length_shortcut_sound, printer_buffers_never_overrun, digit_writer_sound, parser_buffers_never_overrun); the driver runs the bounded model too",
+    "convert.rs to_chunks (inline path, aligned shortcut with clamp, general path with shr_in_place on words) and from_chunks (chunks_to_words: "
+    "shl_in_place + add_in_place into the result buffer, buffer sizes of Repr::from_chunks) = positional chunks, mutually inverse, all k >= 1, all W (chunks_model)",
     "byte / two's complement / chunk encodings: round trip and minimality of the positional specification "
     "(le_bytes_round_trip, signed_bytes_round_trip, chunks_round_trip, chunks_zero_panics)",
 ]
 FRONTIER = [
-    "convert.rs chunk functions (to_chunks inline path, words_to_chunks aligned/unaligned paths): mirrored in Model/Text/Bytes.lean and "
-    "compared with the positional specification on every case at run time (model-spec flag), but model = spec is not yet a theorem "
-    "(the byte encoders/decoders, unsigned and two's complement, ARE proved: ubig_bytes_model, ibig_bytes_model)",
     "num_modular PreMulInv1by1 / Normalized2by1Divisor single-word divisions incl. the normalisation shifts in PreparedDword::new (Nat / and %)",
     "div::fast_div_by_word_in_place, TypedRepr div_rem / sqr / pow / mul, mul_word_in_place_with_carry (C01/C02 kernels; Nat arithmetic here)",
     "arch::digits::digit_chunk_raw_to_ascii SWAR byte trick and DigitWriter buffering (modelled per byte)",
-    "shift::shr_in_place / shl_in_place + add_in_place inside words_to_chunks / chunks_to_words (value level)",
+    "shift::shr_in_place / shl_in_place / add_in_place inside the chunk routines are builder-div's / C01's mirrored models with their proved specs (reused)",
     "big-endian byte functions modelled as mirror images (list reversal) of the little-endian ones",
-    "fixed-size scratch arrays ([u8; 41], [Word; 16]) are lists; their bounds are not part of the model",
+    "the condition of the tower loop (`2 * prev.len() - 1 > number.len()`) is transcribed by hand into Model/Text/Fmt.lean buildPowers; a "
+    "change of that source line is seen by the correspondence run (gen_tower), not by the theorem, until the line is extracted (Tie A)",
 ]
 THEOREMS = ["Dashu.Props.C07." + t for t in [
     "positional_representation", "radix_table", "print_non_pow2_digits", "print_size_classes", "big_chunk_padded",
     "print_pow2_digits", "layout_eq_pad_integral", "print_eq_reference", "parse_radix_eq_grammar", "parse_default_eq_grammar",
     "parse_ok_sound", "parse_no_digits", "print_parse_round_trip", "print_parse_round_trip_unsigned", "le_bytes_round_trip",
-    "ubig_bytes_model", "signed_bytes_round_trip", "ibig_bytes_model", "chunks_round_trip", "chunks_zero_panics"]]
+    "ubig_bytes_model", "signed_bytes_round_trip", "ibig_bytes_model", "tower_length_shortcut_sound", "printer_buffers_never_overrun", "digit_writer_sound", "parser_buffers_never_overrun", "chunks_model", "chunks_round_trip", "chunks_zero_panics"]]
 EXPLANATION = ("Lean theorems for every word size, radix 2..36 and integer: the printing model (all size classes of both printers) "
                "produces exactly the positional digits; the parsing model equals the documented grammar as a total function on byte "
                "strings (errors included) and parse(print) is the identity in both letter cases; format_prepared equals the "
@@ -486,8 +490,9 @@ LEVEL_TEXT = ("Machine-checked Lean 4 theorems about an executable model of dash
               "power-of-two bit slicing across word boundaries); parser = documented grammar as a total function (malformed text is an "
               "error, never a number) and parse(print(n)) = n for both letter cases and signs; format_prepared = pad_integral spec; the "
               "word-level byte encoders/decoders of convert.rs (unsigned and two's complement, inline and heap paths) equal the positional "
-              "specification and are mutually inverse for every integer; chunk encodings: round trip of the positional specification for "
-              "every chunk size (the word-level chunk routines are mirrored and compared with it at run time, not yet by theorem). "
+              "specification and are mutually inverse for every integer; the chunk routines (to_chunks all three paths, chunks_to_words with its "
+              "shift/add kernels and buffer sizes) equal the base-2^k digits and are mutually inverse for every chunk size k >= 1; every "
+              "fixed-size buffer of printers and parsers is modelled as a bounded array and proved never overrun. "
               "The hand-written model is tied to /repo on every run by differential "
               "execution (model vs real code) over all thresholds of both converters and a malformed-text stream, plus a direct "
               "comparison of all flag combinations with Rust's primitive integer formatting.")
